@@ -377,10 +377,18 @@ def drive_composite(ctx, tier, n_cases=None, pool=None):
     leaves = sigs.U(('a', 'b', 'c'), 2) + sigs.U(('x', 'y'), 2)
     n_cases = n_cases or {'quick': 6000, 'thorough': 80000}[tier] // ctx.nshards
 
+    local = []
+
     def leaf():
         # fresh functions now and then, shared ones otherwise (shared callables
-        # reach a result through several inputs)
-        return pool.sig(rnd.choice(leaves), fresh=rnd.random() < 0.5)
+        # reach a result through several inputs); within one tree a leaf already used is
+        # often used again, so that one callable is reached along several paths of
+        # different length (depth = the smallest, whichever input records it first)
+        if local and rnd.random() < 0.4:
+            return rnd.choice(local)
+        s = pool.sig(rnd.choice(leaves), fresh=rnd.random() < 0.5)
+        local.append(s)
+        return s
 
     def build(depth):
         if depth == 0 or rnd.random() < 0.3:
@@ -412,6 +420,7 @@ def drive_composite(ctx, tier, n_cases=None, pool=None):
         if ctx.out_of_time('composite expressions'):
             break
         ctx.count('driver.composite')
+        del local[:]
         try:
             build(3)
         except Exception:
